@@ -1516,3 +1516,25 @@ pub fn manager_persisted_state_dump<CM: crate::ln::channelmanager::AChannelManag
 ) -> alloc::vec::Vec<alloc::string::String> {
 	node.get_cm().verif_persisted_state_dump()
 }
+
+/// H12 (C10): when set, `ChannelManager` deserialization takes the
+/// `reconstruct_manager_from_monitors` path (rebuild pending HTLC state from `Channel{Monitor}`
+/// data) that is otherwise selectable under `cfg(test)` only. Defaults to `false` (the
+/// production path); nothing else reads it.
+pub static RELOAD_RECONSTRUCT_FROM_MONITORS: core::sync::atomic::AtomicBool =
+	core::sync::atomic::AtomicBool::new(false);
+
+/// The previous-hop `(inbound channel id, inbound htlc id)` of every outbound HTLC a
+/// `ChannelMonitor` lists in `get_all_current_outbound_htlcs` (forwarded HTLCs only), sorted (C10).
+pub fn monitor_outbound_htlc_prev_hops<Signer: crate::sign::ecdsa::EcdsaChannelSigner>(
+	monitor: &crate::chain::channelmonitor::ChannelMonitor<Signer>,
+) -> Vec<(crate::ln::types::ChannelId, u64)> {
+	let mut out = Vec::new();
+	for (source, _) in monitor.get_all_current_outbound_htlcs() {
+		for prev in source.previous_hop_data() {
+			out.push((prev.channel_id, prev.htlc_id));
+		}
+	}
+	out.sort();
+	out
+}
